@@ -26,6 +26,7 @@
 #include <sys/time.h>
 #include <sys/wait.h>
 #include <sys/syscall.h>
+#include <dlfcn.h>
 
 /* unit style: the queue's ring indices are part of the canonical trace */
 #include "lib/async/async_queue.c"
@@ -536,6 +537,77 @@ static void wait_thread_exit (wslot_t * s)
   s->exited = 1;
 }
 
+/* The creator-side window of async_worker_create: pthread_create() is interposed in this executable.  In `race` mode
+ * it does not return to the creator until the NEW THREAD HAS RUN TO ITS END (a short-lived worker, the creator
+ * preempted right after the thread was started) - so whatever the creator stores into the worker afterwards arrives
+ * after the thread wrapper's STOPPED store.  No sleeps: the new thread publishes its kernel tid, the creator waits
+ * until /proc/self/task/<tid> has disappeared (the thread has exited). */
+static __thread int race_create;	/* set by the controlling thread around async_worker_create */
+static volatile int race_tid;
+
+static void *race_proc (void *ctx)
+{
+  (void) ctx;
+  __atomic_store_n (&race_tid, (int) syscall (SYS_gettid), __ATOMIC_RELEASE);
+  return 0;			/* a worker procedure that returns at once */
+}
+
+int pthread_create (pthread_t * th, const pthread_attr_t * attr, void *(*fn) (void *), void *arg)
+{
+  static int (*real) (pthread_t *, const pthread_attr_t *, void *(*)(void *), void *);
+  int rc;
+  if (!real)
+    real = (int (*)(pthread_t *, const pthread_attr_t *, void *(*)(void *), void *)) dlsym (RTLD_NEXT, "pthread_create");
+  rc = real (th, attr, fn, arg);
+  if (rc == 0 && race_create)
+    {
+      long end = now_ms () + LIVE_MS;
+      char path[64];
+      int tid;
+      while (!(tid = __atomic_load_n (&race_tid, __ATOMIC_ACQUIRE)) && now_ms () < end)
+        usleep (100);
+      snprintf (path, sizeof path, "/proc/self/task/%d", tid);
+      while (tid && access (path, F_OK) == 0 && now_ms () < end)
+        usleep (100);
+    }
+  return rc;
+}
+
+static void cmd_wnew_race (int w)
+{
+  wslot_t *s = slot_of (w, 0);
+  if (!s)
+    {
+      emit ("skip no-worker");
+      return;
+    }
+  if (s->used)
+    {
+      emit ("skip worker-exists");
+      return;
+    }
+  memset (s, 0, sizeof *s);
+  s->used = 1;
+  sem_init (&s->gate1, 0, 0);
+  sem_init (&s->step, 0, 0);
+#ifdef NEOLITH_VERIF
+  verif_async_yield = yield_cb;	/* other workers of this case still need their yield points */
+#endif
+  creating = s;
+  race_tid = 0;
+  race_create = 1;
+  s->w = async_worker_create (race_proc, s, 0);
+  race_create = 0;
+  if (!s->w)
+    {
+      emit ("wnew %d null", w);
+      return;
+    }
+  s->reached1 = s->inproc = s->returned = 1;
+  s->exited = 1;
+  emit ("wnew %d finished", w);
+}
+
 static void cmd_wnew (int w, int hold)
 {
   wslot_t *s = slot_of (w, 0);
@@ -654,7 +726,10 @@ static int worker_cmd (char **tok, int n)
   int w = n > 1 ? atoi (tok[1]) : -1;
   if (!strcmp (tok[0], "wnew") && n == 3)
     {
-      cmd_wnew (w, !strcmp (tok[2], "hold"));
+      if (!strcmp (tok[2], "race"))
+        cmd_wnew_race (w);
+      else
+        cmd_wnew (w, !strcmp (tok[2], "hold"));
       return 1;
     }
   if (!strcmp (tok[0], "wjoin") && n == 3)
@@ -1396,7 +1471,7 @@ int main (int argc, char **argv)
 {
   const char *scratch = "/tmp";
   const char *keepdir = 0;
-  int timeout = 900;
+  int timeout = 240;
   char *line;
   for (int i = 1; i < argc; i++)
     {
